@@ -270,12 +270,91 @@ WANT = {'ll': ('ln',), 'll_per_bin': ('ln',), 'theta': (), 'scaled': (), 'll_mul
         'lin_resid': ('sqrt',), 'ans_resid': ('roots',)}
 
 
-def make_record(rid, op, model, data, lvl=None):
-    mo, da = enc(model), enc(data)
+def make_record(rid, op, model, data, lvl=None, orig=None, site=None):
+    """One call on the real objects.  The record's input is the abstract value of the two operands BEFORE the call
+    (orig = (mo, da): the value they were created with, when earlier calls have already been made on them; in['before']
+    then is what the objects held when this call began); out['after'] is what the two objects hold after the call
+    (values, mask, folded flag, labels)."""
+    mo, da = orig if orig else (enc(model), enc(data))
     inp = {'mo': mo, 'da': da}
+    if orig:
+        inp['before'] = {'mo': enc(model), 'da': enc(data)}     # what this call found (OperandsUnchanged names the call that changed it)
     if op in ('lin_resid', 'ans_resid'):
         inp['lvl'] = 'none' if lvl is None else rat(lvl)
-    return {'id': rid, 'op': op, 'site': SITE[op], 'in': inp, 'tab': tables(mo, da, WANT[op]), 'out': call(op, model, data, lvl)}
+    tab = tables(mo, da, WANT[op])
+    out = call(op, model, data, lvl)
+    out['after'] = {'mo': enc(model), 'da': enc(data)}
+    return {'id': rid, 'op': op, 'site': site or SITE[op], 'in': inp, 'tab': tab, 'out': out}
+
+
+# ---------------------------------------------------------------- call sequences on the same objects (no edits in between)
+#: the alphabet of the likelihood layer: (function, masking level of a residual)
+SEQ_ALPHABET = [('ll', None), ('ll_per_bin', None), ('theta', None), ('scaled', None), ('ll_multinom', None),
+                ('lin_resid', None), ('lin_resid', 0.5), ('ans_resid', None), ('ans_resid', 0.5)]
+SEQ_SUFFIX = '[call sequence]'
+#: pairs for the sequences: the data hold an unmasked zero (and a zero where the model is unmasked)
+SEQ_CONFIGS = [
+    {'name': 'seq-1D', 'ndim': 1, 'shape': (9,), 'kind': 'counts', 'fold': 'none', 'masks': ('corners', 'none'), 'zero': True, 'zero_model': False,
+     'ids': ['A']},
+    {'name': 'seq-2D-autofold', 'ndim': 2, 'shape': (4, 5), 'kind': 'mixed', 'fold': 'data', 'masks': ('interior', 'single'), 'zero': True,
+     'zero_model': False},
+]
+
+
+def clone(fs, ids=None):
+    """A new Spectrum object with its own buffers holding the same abstract value."""
+    import dadi
+    return dadi.Spectrum(np.array(fs.data, dtype=float, copy=True), mask=np.array(np.ma.getmaskarray(fs), copy=True), mask_corners=False,
+                         data_folded=bool(fs.folded), check_folding=False, pop_ids=ids or getattr(fs, 'pop_ids', None))
+
+
+def _tag(step):
+    op, lvl = step
+    return op if lvl is None else '%s@%s' % (op, lvl)
+
+
+def seq_pair(rng, cfg):
+    """A pair in the domain of every function of the alphabet whose data hold at least one unmasked zero."""
+    for attempt in range(60):
+        model, data = gen_pair(rng, cfg=cfg)
+        model, data = clone(model, cfg.get('ids')), clone(data, cfg.get('ids'))
+        mo, da = enc(model), enc(data)
+        try:
+            tables(mo, da, ('ln', 'lnth', 'sqrt', 'roots'))
+        except ZeroJointData:
+            continue
+        if any(Fraction(x) == 0 and not m for x, m in zip(da['d'], da['m'])):
+            return model, data
+    raise common.MachineryError('C11 sequences: no pair with an unmasked zero datum for %r' % (cfg,))
+
+
+def sequence_records(rng, nid, model0, data0, chains=2):
+    """Histories without edits: every function of the alphabet followed by every function of the alphabet on the same
+    two objects, and `chains` random orders of the whole alphabet on one pair of objects.  Every recorded call carries
+    the abstract value the objects were CREATED with as its input: the ordinary clauses judge the later call against
+    it (history independence), and OperandsUnchanged compares what the objects hold afterwards with it."""
+    orig = (enc(model0), enc(data0))
+    recs = []
+
+    def rec(step, model, data, history):
+        op, lvl = step
+        r = make_record('seq-%s-%d' % ('>'.join(history + [_tag(step)]), next(nid)), op, model, data, lvl, orig=orig, site=SITE[op] + SEQ_SUFFIX)
+        r['in']['seq'] = {'history': history}
+        return r
+    for first in SEQ_ALPHABET:
+        for second in SEQ_ALPHABET:
+            model, data = clone(model0), clone(data0)
+            call(first[0], model, data, first[1])
+            recs.append(rec(second, model, data, [_tag(first)]))
+    for c in range(chains):
+        order = list(SEQ_ALPHABET)
+        rng.shuffle(order)
+        model, data = clone(model0), clone(data0)
+        history = []
+        for step in order:
+            recs.append(rec(step, model, data, list(history)))
+            history.append(_tag(step))
+    return recs
 
 
 # ---------------------------------------------------------------- histories on the same objects (in-place edits)
@@ -421,6 +500,14 @@ def records(ctx):
         # call histories on the same two objects: likelihoods may not remember anything about an earlier state of them
         if c % 2 == 0:
             recs.extend(history_records(rng, nid, model, data, 3))
+    # call sequences on the same objects, every ordered pair of functions (deterministic configurations in both tiers)
+    srng = random.Random(ctx.seed + 1100)
+    for cfg in SEQ_CONFIGS:
+        model, data = seq_pair(srng, cfg)
+        recs.extend(sequence_records(srng, nid, model, data))
+    for c in range(0 if ctx.quick else 12):
+        model, data = seq_pair(srng, {'zero': True, 'zero_model': False})
+        recs.extend(sequence_records(srng, nid, model, data, chains=1))
     return recs
 
 
@@ -428,6 +515,15 @@ def mutate(rec):
     """Corrupt one observed field so that a sound trace spec must reject the record."""
     out = rec['out']
     op = rec['op']
+    if 'after' in out and int(rec['id'].rsplit('-', 1)[1]) % 3 == 0:
+        # the call is said to have left its data operand changed: one more entry masked (or the first value doubled)
+        da = out['after']['da']
+        free = [k for k in range(len(da['m'])) if not da['m'][k]]
+        if free:
+            da['m'][free[-1]] = True
+        else:
+            da['d'][0] = rat(Fraction(da['d'][0]) * 2 + 1)
+        return rec
     if 'raised' in out:
         return None
 
@@ -467,6 +563,8 @@ def nontrivial(r):
     mo, da = i['mo'], i['da']
     d = [Fraction(x) for x in da['d']]
     hist = i.get('hist')
+    if 'seq' in i:
+        return (r['op'], i.get('lvl'), tuple(i['seq']['history']), len(mo['sh']), da['f'], mo['f'])
     return (r['op'], (hist['edit']['target'], hist['edit']['kind']) if hist else None, len(mo['sh']), da['f'], mo['f'], mo['m'] != da['m'],
             any(x.denominator != 1 for x in d), any(x == 0 and not m for x, m in zip(d, da['m'])), i.get('lvl', '') not in ('', 'none'))
 
@@ -487,8 +585,13 @@ def run(ctx):
              'dtype data, the smallest 1-D and 2-D spectra, counts up to 1e6, model zero where the datum is zero, an unmasked zero datum; '
              'residual levels None / 0 / 0.01 / 0.5 / 2 in rotation and a hand-made pair with model and data exactly at the level; rescaling '
              'factors 1e-3 and 1e3.  Plus random pairs (30 quick, 450 thorough), and for every second pair three evaluate / edit-in-place / '
-             'evaluate steps on the same objects.  Every listed Inference function per pair plus ll_multinom(c*model) and '
-             'll_multinom(c\'*data) vs a competitor; distinct by (function, edit, ndim, data folded, model folded, masks differ, '
+             'evaluate steps on the same objects; call sequences without edits on the same two objects (data with unmasked zeros, a 1-D pair and '
+             'a 2-D pair with automatic folding; 12 more random pairs in the thorough tier): every function of the alphabet (the five likelihood / '
+             'scaling functions, both residuals without and with a masking level) followed by every function of the alphabet, and random orders of '
+             'the whole alphabet on one pair of objects, every call judged against the value the objects were created with; after EVERY recorded '
+             'call both operands are compared with their value before it (values, mask, folded flag, labels).  '
+             'Every listed Inference function per pair plus ll_multinom(c*model) and '
+             'll_multinom(c\'*data) vs a competitor; distinct by (function, edit | call history, ndim, data folded, model folded, masks differ, '
              'non-integer data, unmasked zero datum, masking level given)',
         assumptions=['ln, lnGamma and roots are supplied by the recorder from the stdlib math module at arguments that TLC checks exactly '
                      '(roots are verified by exact powering, ln values by 1-1/x <= ln x <= x-1); libm is trusted to 1e-15',
@@ -506,7 +609,8 @@ def reexecute(rec):
 
     def dec(s):
         arr = np.array([float(Fraction(x)) if x not in ('nan', 'inf', '-inf') else float(x) for x in s['d']]).reshape(s['sh'])
-        return dadi.Spectrum(arr, mask=np.array(s['m']).reshape(s['sh']), mask_corners=False, data_folded=s["f"], check_folding=False)
+        return dadi.Spectrum(arr, mask=np.array(s['m']).reshape(s['sh']), mask_corners=False, data_folded=s["f"], check_folding=False,
+                             pop_ids=['+'.join(x) for x in s['ids']] if s.get('ids') else None)
     op = rec['op']
     if op in ('scale_inv', 'maximises'):
         return rec          # relational records are re-validated as recorded
@@ -523,4 +627,14 @@ def reexecute(rec):
     model, data = dec(rec['in']['mo']), dec(rec['in']['da'])
     lvl = rec['in'].get('lvl', 'none')
     lvl = None if lvl == 'none' else float(Fraction(lvl))
+    seq = rec['in'].get('seq')
+    if seq:
+        # the sequence as it happened: the earlier calls on the same two objects, then the recorded one
+        orig = (enc(model), enc(data))
+        for t in seq['history']:
+            o, _, l = t.partition('@')
+            call(o, model, data, float(l) if l else None)
+        new = make_record(rec['id'], op, model, data, lvl, orig=orig, site=rec['site'])
+        new['in']['seq'] = seq
+        return new
     return make_record(rec['id'], op, model, data, lvl)
